@@ -72,7 +72,7 @@ TARGETS = [
     ("chipfiring/CFConfig.py", "CFConfigMoves", "__init__"), ("chipfiring/CFConfig.py", "CFConfigMoves", "get_degree_at"), ("chipfiring/CFConfig.py", "CFConfigMoves", "is_non_negative"), ("chipfiring/CFConfig.py", "CFConfigMoves", "get_degree_sum"), ("chipfiring/CFConfig.py", "CFConfigMoves", "get_q_underlying_degree"),
     ("chipfiring/CFConfig.py", "CFConfigMoves", "_is_comparable_to"), ("chipfiring/CFConfig.py", "CFConfigMoves", "__eq__"), ("chipfiring/CFConfig.py", "CFConfigMoves", "__ge__"), ("chipfiring/CFConfig.py", "CFConfigMoves", "__le__"),
     ("chipfiring/CFConfig.py", "CFConfigMoves", "set_fire"), ("chipfiring/CFConfig.py", "CFConfigMoves", "lending_move"), ("chipfiring/CFConfig.py", "CFConfigMoves", "borrowing_move"),
-    ("chipfiring/CFConfig.py", "CFConfigMoves", "is_legal_set_firing"),
+    ("chipfiring/CFConfig.py", "CFConfigMoves", "is_legal_set_firing"), ("chipfiring/CFConfig.py", "CFConfigMoves", "__lt__"), ("chipfiring/CFConfig.py", "CFConfigMoves", "__gt__"),
 ]
 class Unsupported(Exception): pass
 def bad(node, why=""): raise Unsupported("%s at line %s: %s" % (type(node).__name__, getattr(node, "lineno", "?"), why))
@@ -323,6 +323,14 @@ class Fn:
                 parts.append(p)
             if any(t != "bool" for _, t in parts): bad(e, "and/or on non-bool")
             return "(" + (" && " if isinstance(e.op, ast.And) else " || ").join(p for p, _ in parts) + ")", "bool"
+        if isinstance(e, ast.Compare) and len(e.ops) == 1 and isinstance(e.left, ast.Name) and e.left.id == "self" and isinstance(e.comparators[0], ast.Name) \
+                and self.env.get(e.comparators[0].id) == "cfgparam" and type(e.ops[0]) in (ast.LtE, ast.GtE, ast.Eq):
+            nm_ = {ast.LtE: "__le__", ast.GtE: "__ge__", ast.Eq: "__eq__"}[type(e.ops[0])]; callee = DONE.get((self.cls, nm_))
+            if callee is None or callee.writes or callee.rty != "bool" or list(callee.objargs) != ["other"]: bad(e, "comparison of configurations")
+            fake = ast.Call(func=ast.Attribute(value=ast.Name(id="self"), attr=nm_), args=[e.comparators[0]], keywords=[])
+            args = self.call_args(callee, fake); call = "%s_%s %s" % (self.cls, nm_, " ".join(args))
+            if not callee.can_raise: return "(%s)" % call, "bool"
+            t = self.fresh(); self.pending.append((t, "CALL_ " + call)); self.can_raise = True; return t, "bool"
         if isinstance(e, ast.Compare) and len(e.ops) == 1:
             op = e.ops[0]; a, ta = self.expr(e.left); b, tb = self.expr(e.comparators[0])
             if isinstance(op, (ast.In, ast.NotIn)):
@@ -483,6 +491,16 @@ class Fn:
                 if self.rty not in (None, "divobj"): bad(s, "returns of different types")
                 self.rty = "divobj"; self.can_raise = True
                 return self.wrap("match CFDivisor___init__ %sself_graph_vertices self_graph_graph %s with PyExn _ => EXN_ | PyOk new_ => RETB_ new_ RETE_ end" % ("set_order " if ctor.uses_order else "", lst))
+            if isinstance(s.value, ast.BoolOp) and isinstance(s.value.op, ast.And) and len(s.value.values) == 2 and not getattr(self, "loop_ret", []) and not self.opt_ret:
+                pre = self.pending; self.pending = []
+                x_, tx_ = self.expr(s.value.values[0]); px_ = self.pending; self.pending = []
+                y_, ty_ = self.expr(s.value.values[1]); py_ = self.pending; self.pending = pre
+                if px_ or py_:
+                    if tx_ != "bool" or ty_ != "bool" or self.rty not in (None, "bool"): bad(s, "and of non-bool")
+                    self.rty = "bool"; save = self.pending
+                    self.pending = py_; inner = self.wrap("RETB_ %s RETE_" % y_)
+                    self.pending = px_; text = self.wrap("if %s then\n  %s\n  else\n  RETB_ false RETE_" % (x_, inner))
+                    self.pending = save; return self.wrap(text)
             if self.opt_ret:
                 # a method annotated Optional[bool] / Optional[Tuple[str, str]]: `return None` is None, any other return is Some of a bool / of a pair of names
                 if isinstance(s.value, ast.Constant) and s.value.value is None: t, ty = "None", self.opt_ret
